@@ -25,7 +25,7 @@
    harness/pv/props/C01.py.  Float rounding is outside the model. *)
 From PV Require Import Model.Isir Proofs.IsirProofs Model.Csmc Proofs.CsmcSupport Proofs.CsmcInvariant Proofs.AuxVar Proofs.CsmcTarget Proofs.PgAssembly.
 From PV Require Import Model.Grammar Model.Proposals Proofs.GrammarTable Proofs.GrammarPG Proofs.GrammarForests Proofs.GrammarProposals Model.CsmcCases Proofs.CsmcEss.
-From PV Require Import Model.EndToEnd Proofs.EndToEndPos Proofs.EndToEndAlign Proofs.EndToEnd.
+From PV Require Import Model.EndToEnd Proofs.EndToEndPos Proofs.EndToEndAlign Proofs.EndToEnd Proofs.EndToEndFeq Proofs.EndToEndRel.
 
 Theorem C01_csmc_invariant :
   forall (A : Type) (q : list A -> dist A) (om : list A -> Qc) (rs : @swarm A -> bool) (n : nat),
@@ -235,6 +235,30 @@ Theorem C01_state_denotes_its_forest : forall (n : nat) (on : bool) (t : list (l
   tab n (frel F) = t /\ Density.wf F /\ Permutation.Permutation (seq 0 n) (fpoints F) /\ (on = false -> outl F = []).
 Proof. exact forest_of_table_spec. Qed.
 Print Assumptions C01_state_denotes_its_forest.
+
+(* ... and the target does not depend on WHICH forest is read off the state: a well-formed rose forest is determined up to
+   sibling order and the order of a clone's points by its ancestor-or-equal relation (same clades, same outliers: with
+   C03_clades_determine_tree), and the end-to-end density is invariant under that equivalence (C03's spec invariance plus
+   the invariance of C02's root vectors under permuting children at every depth and a clone's data).  So the weight the
+   theorem puts on a state is exp(log_p_one) of EVERY well-formed forest over 0..n-1 whose relation table is the state. *)
+Theorem C01_fscrp_target_well_defined :
+  forall (n : nat) (on : bool) (alpha c : Qc) (G nsamp : nat) (D : nat -> dpoint) (t : list (list bool)) (F : forest),
+  In t (forests n on) -> Density.wf F -> Permutation.Permutation (seq 0 n) (fpoints F) -> tab n (frel F) = t ->
+  dens_one alpha c G nsamp D F = gam_fscrp alpha c G nsamp D n on t.
+Proof. exact gam_fscrp_well_defined. Qed.
+Print Assumptions C01_fscrp_target_well_defined.
+
+Theorem C01_relation_determines_forest : forall F F' : forest,
+  Density.wf F -> Density.wf F' -> (forall a b, frel F a b = frel F' a b) -> Permutation.Permutation (fpoints F) (fpoints F') ->
+  feq F F'.
+Proof. exact same_relation_feq. Qed.
+Print Assumptions C01_relation_determines_forest.
+
+Theorem C01_fscrp_density_invariant_under_feq : forall (alpha c : Qc) (G nsamp : nat) (D : nat -> dpoint) (F F' : forest),
+  feq F F' ->
+  dens_one alpha c G nsamp D F = dens_one alpha c G nsamp D F' /\ dens_marg alpha G nsamp D F = dens_marg alpha G nsamp D F'.
+Proof. exact dens_feq. Qed.
+Print Assumptions C01_fscrp_density_invariant_under_feq.
 
 (* the FS-CRP density (both forms) is positive on EVERY rose forest under the data premises *)
 Theorem C01_fscrp_density_positive : forall (G nsamp : nat) (D : nat -> dpoint), (1 <= G)%nat -> data_ok G nsamp D ->
